@@ -153,6 +153,18 @@ def run(ctx):
         envs = [e for e in envs if selection(prog, e) is not None]
         if envs:
             corpus.append((gp, prog, envs))
+    # return statements that repeat a group label (any fold / merge through a set or dict would order them by hash)
+    from pyabv.gen.programs import GenProg
+    from pyabv.props.common import Inferred, ref_parse
+
+    for rt in ('def rep1 { salt: "r" splitters: uid, sid return "control" weighted 2, "variant_a" weighted 1, "variant_b" weighted 1, "control" weighted 1 }',
+               'def rep2 { splitters: uid if plan == "p" { return "x" weighted 1, "y" weighted 1, "x" weighted 1, "zz" weighted 1, "y" weighted 2 } '
+               'else { return "b" weighted 1, "a" weighted 1, "b" weighted 1 } }'):
+        st = ref_parse(rt)
+        if st[0] == "ok":
+            inf = Inferred(st[1], rt)
+            envs = [dict(uid=f"u{j}", sid=j % 5, plan="p" if j % 2 else "q") for j in range(ninputs)]
+            corpus.append((inf, st[1], envs))
     # two sources sharing one experiment name, differing in weights (class-level caches keyed by name)
     twin_a = 'def same_name { salt: "t" splitters: uid, sid return "a" weighted 1, "b" weighted 1 }'
     twin_b = 'def same_name { salt: "t" splitters: uid, sid return "a" weighted 1, "b" weighted 9 }'
